@@ -1038,10 +1038,34 @@ fn derive_dot_expression(
             }
         }
 
-        // Grouped expression - unwrap and recurse
-        (_, Expression::Grouped(expr, _)) => {
-            derive_dot_expression(pos, left_shape, expr.as_ref(), symbol_table)
+        // Grouped expression - a computed selector. A literal key selects
+        // statically, anything else (`t.(k)`) is only known at runtime.
+        (_, Expression::Grouped(expr, _)) => match expr.as_ref() {
+            Expression::Simple(Value::Str(_)) | Expression::Simple(Value::Int(_)) => {
+                derive_dot_expression(pos, left_shape, expr.as_ref(), symbol_table)
+            }
+            _ => {
+                let key_shape = expr.derive_shape(symbol_table);
+                if let Shape::TypeErr(_, _) = key_shape {
+                    key_shape
+                } else {
+                    Shape::Narrowed(NarrowedShape {
+                        pos: pos.clone(),
+                        types: NarrowingShape::Any,
+                    })
+                }
+            }
+        },
+
+        // A call or a copy through a selector (`t.f(1)`, `t.m{}`): the
+        // result is whatever the selected function or module returns.
+        (Shape::TypeErr(_, _), Expression::Call(_)) | (Shape::TypeErr(_, _), Expression::Copy(_)) => {
+            left_shape.clone()
         }
+        (_, Expression::Call(_)) | (_, Expression::Copy(_)) => Shape::Narrowed(NarrowedShape {
+            pos: pos.clone(),
+            types: NarrowingShape::Any,
+        }),
 
         // Resolved import - treat as a tuple of exported bindings
         (Shape::Import(ImportShape::Resolved(_, tuple_fields)), _) => {
